@@ -73,6 +73,10 @@ fn run_replay(r: &Replay) -> Option<Failure> {
       let s: topic::Scenario = vcore::from_value(&r.scenario);
       topic::execute(&s).err()
     }
+    "E4-topic-fresh" => {
+      let s: topic::FreshScenario = vcore::from_value(&r.scenario);
+      (0..5).find_map(|_| topic::execute_fresh(&s).err())
+    }
     "E4-topic" => {
       // real threads: the replay is statistical (repeated)
       let s: topic::StressScenario = vcore::from_value(&r.scenario);
@@ -215,6 +219,10 @@ fn main() {
             vcore::set_current_engine("E4-topic");
             let out = vcore::drive(&ctx, &check.findings, 6, cases, topic::stress_strategy, |s| topic::execute_stress(s));
             check.absorb("E4-topic", out);
+            let cases = ctx.tier.pick(32u64, 1_500u64);
+            vcore::set_current_engine("E4-topic-fresh");
+            let out = vcore::drive(&ctx, &check.findings, 7, cases, topic::fresh_strategy, |s| topic::execute_fresh(s));
+            check.absorb("E4-topic-fresh", out);
           }
           ("proptest-generated histories over 3 topics, up to 3 sender handles and 3 receivers (subscribe/unsubscribe/clone/close/drop/convert, sync and async forms) against a model of subscription sets and bounded drop-newest mailboxes; non-trivial = a subscription changed between two publishes, or a mailbox overflowed, or a sender clone went away while another stayed; distinct = hash of the scenario".into(), vec!["sequential histories (publishing never overlaps a subscription change)".into()])
         }
